@@ -71,6 +71,10 @@ func c05Shapes() []struct {
 		{"inter-zero", [4]*big.Int{big.NewInt(5), big.NewInt(0), big.NewInt(7), big.NewInt(9)}},
 		{"tcbinfo-signer-zero", [4]*big.Int{big.NewInt(5), big.NewInt(6), big.NewInt(0), big.NewInt(9)}},
 		{"qeidentity-signer-zero", [4]*big.Int{big.NewInt(5), big.NewInt(6), big.NewInt(7), big.NewInt(0)}},
+		// serials are unique per ISSUER only: the leaf (issued by the intermediate) may carry the serial of a
+		// certificate the root issued
+		{"leaf=inter", [4]*big.Int{big.NewInt(0x4242), big.NewInt(0x4242), big.NewInt(7), big.NewInt(9)}},
+		{"leaf=tcbinfo-signer", [4]*big.Int{hexInt("0c0ffee0c0ffee0c0ffee1"), big.NewInt(6), hexInt("0c0ffee0c0ffee0c0ffee1"), big.NewInt(9)}},
 		{"20-octets", [4]*big.Int{hexInt("7fffffffffffffffffffffffffffffffffffff01"), hexInt("7fffffffffffffffffffffffffffffffffffff02"), hexInt("100000000000000000000000000000000000ab03"), hexInt("0123456789abcdef0123456789abcdef01234504")}},
 	}
 }
@@ -139,16 +143,19 @@ func c05Env(shape string, serials [4]*big.Int) *c05env {
 		}
 		return x
 	}
+	up := func(v *big.Int, bit uint) *big.Int { return new(big.Int).Add(v, new(big.Int).Lsh(big.NewInt(1), bit)) }
 	type rset = c05rset
 	pckSets := []rset{{"none", nil, true}, {"unrelated", []*big.Int{unrelated}, true}, {"leaf-1", []*big.Int{pm(leafSN, -1)}, true}, {"leaf+1", []*big.Int{pm(leafSN, 1)}, true},
 		{"20-byte", []*big.Int{big20}, true}, {"100-unrelated", many(nil), true}, {"cross:inter+tcb-signers", []*big.Int{interSN, tcbSN, qeSN}, true},
 		{"leaf", []*big.Int{leafSN}, false}, {"leaf-among-100", many(leafSN), false}, {"leaf-last", []*big.Int{unrelated, big20, leafSN}, false},
-		{"leaf@128-of-300", manyAt(leafSN, 128), false}, {"leaf@256-of-300", manyAt(leafSN, 256), false}, {"leaf@299-of-300", manyAt(leafSN, 299), false}, {"300-unrelated", manyAt(unrelated, 7), true}}
+		{"leaf@128-of-300", manyAt(leafSN, 128), false}, {"leaf@256-of-300", manyAt(leafSN, 256), false}, {"leaf@299-of-300", manyAt(leafSN, 299), false}, {"300-unrelated", manyAt(unrelated, 7), true},
+		{"leaf+2^64,+2^32,+2^8", []*big.Int{up(leafSN, 64), up(leafSN, 32), up(leafSN, 8)}, true}}
 	rootSets := []rset{{"none", nil, true}, {"unrelated", []*big.Int{unrelated}, true}, {"inter-1", []*big.Int{pm(interSN, -1)}, true}, {"tcb+1", []*big.Int{pm(tcbSN, 1)}, true},
 		{"100-unrelated", many(nil), true}, {"cross:leaf", []*big.Int{leafSN}, true},
 		{"inter", []*big.Int{interSN}, false}, {"tcbinfo-signer", []*big.Int{tcbSN}, false}, {"qeidentity-signer", []*big.Int{qeSN}, false},
 		{"inter-among-100", many(interSN), false}, {"qeidentity-signer-last", []*big.Int{unrelated, qeSN}, false},
-		{"inter@128-of-300", manyAt(interSN, 128), false}, {"tcbinfo-signer@299-of-300", manyAt(tcbSN, 299), false}}
+		{"inter@128-of-300", manyAt(interSN, 128), false}, {"tcbinfo-signer@299-of-300", manyAt(tcbSN, 299), false},
+		{"signers+2^64,+2^32,+2^8", []*big.Int{up(interSN, 64), up(tcbSN, 64), up(qeSN, 64), up(interSN, 32), up(tcbSN, 32), up(qeSN, 32), up(tcbSN, 8)}, true}}
 	type signer = c05signer
 	pckSigners := []signer{{"inter", pki.Inter, pki.InterKey, true}, {"root", pki.Root, pki.RootKey, false}, {"F.inter", F.Inter, F.InterKey, false},
 		{"inter-name/leaf-key", pki.Inter, pki.LeafKey, false}, {"inter-name/root-key", pki.Inter, pki.RootKey, false}}
